@@ -28,6 +28,16 @@ from ppci.irutils.verify import verify_module
 ALL_FEATURES = ('diamond', 'loop', 'selfloop', 'dupedge', 'alloca', 'volatile', 'globals', 'calls',
                 'extern', 'casts', 'floats', 'copyblob', 'literal', 'undefined', 'shuffle', 'ub',
                 'bigconst', 'ptrarith', 'rot', 'initref')
+# additional features, NOT part of ALL_FEATURES (features=None keeps its former output):
+#   'shadow_global'  parameters / locals named like a global variable, external or earlier function of
+#                    the module and used as operands (typed arithmetic and pointer positions); the
+#                    function that shadows a module-level name never references that module-level value
+#                    (references are by name in the JSON/text formats), other functions may.
+#                    Such modules are NOT Spec.IRSyntax.wf_modul (which demands disjoint names).
+#   'call_later'     functions call functions that are defined LATER in the module (instead of earlier
+#                    ones), so readers see references to not yet defined module-level names.
+EXTRA_FEATURES = ('shadow_global', 'call_later')
+ALL_FEATURES_X = ALL_FEATURES + EXTRA_FEATURES
 SAFE_FEATURES = ('diamond', 'loop', 'selfloop', 'dupedge', 'alloca', 'volatile', 'globals', 'calls',
                  'casts', 'literal', 'shuffle', 'ptrarith')
 
@@ -63,6 +73,8 @@ class FnGen:
         self.types = rng.sample(INT_TYPES, rng.randint(2, 4))
         self.allocs = []     # (ptr value, size) available (dominating) memory
         self.budget = 10 + 6 * size
+        self.banned = set()   # module-level names this function must not reference (it shadows them)
+        self.shadow = []      # names of module-level values still to be given to locals
 
     # -- plumbing
     def block(self, hint):
@@ -104,6 +116,23 @@ class FnGen:
         o = self.const(self.rng.choice([ir.i32, ir.u32, ir.i64]), off)
         op = self.emit(ir.Cast(o, self.nm('off'), ir.ptr))
         return self.emit(ir.Binop(base, '+', op, self.nm('p'), ir.ptr))
+
+    def shadow_prelude(self, env):
+        """give the remaining shadow names to locals and use them as operands"""
+        rng = self.rng
+        for k, s in enumerate(self.shadow):
+            t = rng.choice(self.types)
+            if k % 2 == 0:
+                v = self.emit(ir.Const(pick_const(rng, t, ()), s, t))            # typed arithmetic position
+                w = self.emit(ir.Binop(v, rng.choice(['+', '^', '|']), self.get(env, t), self.nm('sh'), t))
+                env.setdefault(t, []).extend([v, w])
+            else:
+                a = self.emit(ir.Alloc(self.nm('alloc'), 8, 8))
+                ptr = self.emit(ir.AddressOf(a, s))                               # pointer operand position
+                self.allocs.append((ptr, 8))
+                self.emit(ir.Store(self.get(env, t), ptr))
+                env.setdefault(t, []).append(self.emit(ir.Load(ptr, self.nm('shl'), t)))
+        self.shadow = []
 
     # -- straight-line instructions
     def straight(self, env, n):
@@ -188,7 +217,8 @@ class FnGen:
         choices = []
         if 'alloca' in feats:
             choices.append('alloc')
-        if 'globals' in feats and self.mg.gvars:
+        gvars = [g for g in self.mg.gvars if g.name not in self.banned]
+        if 'globals' in feats and gvars:
             choices.append('global')
         cands = [(p, s) for p, s in self.allocs if s >= size]
         if cands:
@@ -201,7 +231,7 @@ class FnGen:
             self.allocs.append((p, amount))
             total = amount
         elif kind == 'global':
-            g = rng.choice(self.mg.gvars)
+            g = rng.choice(gvars)
             if g.amount < size:
                 return
             p, total = g, g.amount
@@ -220,6 +250,8 @@ class FnGen:
         cands = list(self.mg.callables)
         if 'extern' in self.feats:
             cands += self.mg.ext_callables
+        if self.banned:
+            cands = [c for c in cands if c[0].name not in self.banned]
         if not cands:
             return
         callee, argtys, ret = rng.choice(cands)
@@ -338,7 +370,6 @@ class ModGen:
 
     def build(self):
         rng, feats, m = self.rng, self.feats, self.m
-        clash = 'name_clash' in feats
         if 'extern' in feats:
             for k in range(rng.randint(1, 2)):
                 tys = [rng.choice(INT_TYPES) for _ in range(rng.randint(0, 3))]
@@ -370,7 +401,27 @@ class ModGen:
                                 rng.choice([1, 4, 8]), value)
                 m.add_variable(g)
                 self.gvars.append(g)
+        if 'shadow_global' in feats:
+            m.add_variable(ir.Variable('sg0', ir.Binding.GLOBAL, 8, 8, None))
+            m.add_external(ir.ExternalVariable('sx0'))
+            m.add_external(ir.ExternalProcedure('sxp0', []))
         nfun = rng.randint(1, max(1, self.size))
+        later = 'call_later' in feats and rng.random() < 0.7
+        if later:
+            nfun = max(nfun, 2)
+            sigs = []
+            for k in range(nfun):
+                params = [rng.choice(INT_TYPES) for _ in range(rng.randint(0, 3))]
+                binding = rng.choice([ir.Binding.GLOBAL, ir.Binding.LOCAL])
+                rt = rng.choice(INT_TYPES) if rng.random() < 0.75 else None
+                f = ir.Function('f%d' % k, binding, rt) if rt is not None else ir.Procedure('p%d' % k, binding)
+                m.add_function(f)
+                sigs.append((f, params, rt))
+            for k in range(nfun):
+                self.callables = sigs[k + 1:]          # only later functions: no recursion
+                self.gen_body(*sigs[k], earlier=[x[0].name for x in sigs[:k]])
+            self.callables = sigs
+            return m
         for k in range(nfun):
             params = [rng.choice(INT_TYPES) for _ in range(rng.randint(0, 3))]
             binding = rng.choice([ir.Binding.GLOBAL, ir.Binding.LOCAL])
@@ -381,33 +432,53 @@ class ModGen:
                 rt = None
                 f = ir.Procedure('p%d' % k, binding)
             m.add_function(f)
-            if clash:
-                self.vprefix = rng.choice(['v_', 'g', 'f', ''])
-            fg = FnGen(self, f, rng, feats, self.size)
-            env = {}
-            for j, t in enumerate(params):
-                p = ir.Parameter('a%d' % j if not clash else rng.choice(['a0', 'g0', 'v_c']), t)
-                f.add_parameter(p)
-                env.setdefault(t, []).append(p)
-            fg.types = list(dict.fromkeys(fg.types + params[:1]))
-            fg.cur = fg.block('entry')
-            for _ in range(rng.randint(1, max(1, self.size))):
-                fg.segment(env, 0)
-            if rt is None:
-                fg.emit(ir.Exit())
-            else:
-                fg.emit(ir.Return(fg.get(env, rt)))
-            if 'shuffle' in feats and len(f.blocks) > 2 and rng.random() < 0.6:
-                rest = f.blocks[1:]
-                rng.shuffle(rest)
-                f.blocks[1:] = rest
+            self.gen_body(f, params, rt, earlier=[x[0].name for x in self.callables])
             self.callables.append((f, params, rt))
         return m
+
+    def gen_body(self, f, params, rt, earlier):
+        rng, feats = self.rng, self.feats
+        clash = 'name_clash' in feats
+        if clash:
+            self.vprefix = rng.choice(['v_', 'g', 'f', ''])
+        fg = FnGen(self, f, rng, feats, self.size)
+        pnames = ['a%d' % j if not clash else rng.choice(['a0', 'g0', 'v_c']) for j in range(len(params))]
+        if 'shadow_global' in feats and rng.random() < 0.8:
+            pool = [g.name for g in self.gvars] + [e.name for e in self.m.externals] + list(earlier) + ['sg0']
+            pool = [n for n in dict.fromkeys(pool) if n != f.name]
+            chosen = rng.sample(pool, min(len(pool), rng.randint(1, 3)))
+            fg.banned = set(chosen)
+            for j in range(len(pnames)):
+                if chosen and rng.random() < 0.6:
+                    pnames[j] = chosen.pop()
+            fg.shadow = chosen
+        env = {}
+        for j, t in enumerate(params):
+            p = ir.Parameter(pnames[j], t)
+            f.add_parameter(p)
+            env.setdefault(t, []).append(p)
+        fg.types = list(dict.fromkeys(fg.types + params[:1]))
+        fg.cur = fg.block('entry')
+        if fg.banned:
+            for p in f.arguments:                       # shadowing parameters in typed positions
+                if p.name in fg.banned:
+                    env[p.ty].append(fg.emit(ir.Binop(p, '+', fg.const(p.ty), fg.nm('sp'), p.ty)))
+            fg.shadow_prelude(env)
+        for _ in range(rng.randint(1, max(1, self.size))):
+            fg.segment(env, 0)
+        if rt is None:
+            fg.emit(ir.Exit())
+        else:
+            fg.emit(ir.Return(fg.get(env, rt)))
+        if 'shuffle' in feats and len(f.blocks) > 2 and rng.random() < 0.6:
+            rest = f.blocks[1:]
+            rng.shuffle(rest)
+            f.blocks[1:] = rest
 
 
 def gen_module(rng, size=3, features=None, name='gen'):
     feats = frozenset(ALL_FEATURES if features is None else features)
-    unknown = feats - set(ALL_FEATURES) - {'name_clash'}
+    unknown = feats - set(ALL_FEATURES) - set(EXTRA_FEATURES) - {'name_clash'}
     if unknown:
         raise ValueError('unknown features: %s' % sorted(unknown))
     m = ModGen(rng, size, feats, name).build()
